@@ -196,5 +196,9 @@ func runC05(c *Ctx) {
 }
 
 func init() {
-	runners["C05"] = runC05
+	runners["C05"] = func(c *Ctx) {
+		runC05(c)
+		// the GCM assembly routines, listing vs CPU vs specification (asmval.go)
+		runAsmValGCM(c)
+	}
 }
